@@ -509,13 +509,22 @@ Definition class_joint_core_wraps (protos : list proto) (w : option Z) : bool :=
   end.
 
 (* ---------- Protocluster.add_cds: the defining genes ---------- *)
-(* genes handed to add_cds are those wholly inside the protocluster's location; a gene is a
-   defining gene iff it also lies inside the core location and has a CORE function with the
-   protocluster's product *)
-Definition with_defs (genes : list gene) (p : proto) : proto :=
-  mkProto (pid p) (ploc p) (pcore p) (pprod p)
-          (map gid (filter (fun g => contains (ploc p) (gloc g) && contains (pcore p) (gloc g)
-                                     && zmem (pprod p) (gprods g)) genes)).
+(* genes handed to add_cds are those wholly inside the protocluster's location; add_cds records a gene in the
+   PRIVATE set `_definition_cdses` iff it also lies inside the core location and has a CORE function with the
+   protocluster's product - for every class of protocluster, SideloadedProtocluster inherits add_cds *)
+Definition private_defs (genes : list gene) (p : proto) : list Z :=
+  map gid (filter (fun g => contains (ploc p) (gloc g) && contains (pcore p) (gloc g)
+                            && zmem (pprod p) (gprods g)) genes).
+(* the PUBLIC property `definition_cdses`, which is what candidate formation reads: Protocluster returns (a copy of)
+   the private set, SideloadedProtocluster overrides the property and always returns the empty set ("a sideloaded
+   protocluster cannot have definition cdses").  `defining` = the protocluster contributes defining genes: true for a
+   rule-based Protocluster, false for a SideloadedProtocluster (the only subclass in the code base).  `pdefs` of a
+   model protocluster always is the value of the public property *)
+Definition public_defs (genes : list gene) (defining : bool) (p : proto) : list Z :=
+  if defining then private_defs genes p else [].
+Definition with_defs_k (genes : list gene) (pk : proto * bool) : proto :=
+  let p := fst pk in mkProto (pid p) (ploc p) (pcore p) (pprod p) (public_defs genes (snd pk) p).
+Definition with_defs (genes : list gene) (p : proto) : proto := with_defs_k genes (p, true).
 
 (* ---------- Record: add_protocluster*, create_candidate_clusters ---------- *)
 Definition record_insert_proto (l : list proto) (p : proto) : list proto :=
@@ -526,9 +535,10 @@ Definition record_insert_cand (n : Z) (acc : res (list cand)) (c : cand) : res (
   if n <? lend (cloc c) then Err E_Assert else
   Ok (insert_at (bisect_left (fun e => lt_cc e c) l) c l).
 
-Definition record_create (n : Z) (circular : bool) (genes : list gene) (protos : list proto)
+(* the protoclusters come with their class flag (`defining`, see public_defs) *)
+Definition record_create (n : Z) (circular : bool) (genes : list gene) (protos : list (proto * bool))
   : res (list cand) :=
-  let stored := fold_left record_insert_proto (map (with_defs genes) protos) [] in
+  let stored := fold_left record_insert_proto (map (with_defs_k genes) protos) [] in
   match stored with
   | [] => Ok []
   | _ =>
@@ -728,13 +738,75 @@ Definition singles_present (protos : list proto) (out : list ocand) : bool :=
              || existsb (fun c : ocand => (okind c =? K_SINGLE) && list_eqb Z.eqb (oids c) [pid p]) out
              || existsb (fun c : ocand => zmem (pid p) (oids c) && (fstart (oloc c) =? fstart (ploc p))
                                           && (fend (oloc c) =? fend (ploc p))) out) protos.
+(* a protocluster that is in a candidate only as the extra of a promotion (it has a SINGLE of its own) or whose
+   single is suppressed because a candidate with its coordinates contains it *)
+Definition promoted_extra (out : list ocand) (p : proto) : bool :=
+  existsb (fun d : ocand =>
+             ((okind d =? K_SINGLE) && list_eqb Z.eqb (oids d) [pid p])
+             || (zmem (pid p) (oids d) && (fstart (oloc d) =? fstart (ploc p))
+                 && (fend (oloc d) =? fend (ploc p)))) out.
+(* every CHEMICAL_HYBRID candidate has two (different) members that share a defining gene, the defining genes being
+   what the public `definition_cdses` reports (pdefs): a protocluster without defining genes (sideloaded) is never
+   the reason for a hybrid *)
+Definition hybrids_share (protos : list proto) (out : list ocand) : bool :=
+  forallb (fun c : ocand =>
+             negb (okind c =? K_HYBRID) ||
+             let ms := omembers protos c in
+             existsb (fun p => existsb (fun q => rel_H p q) ms) ms) out.
+(* ... and every other member of a hybrid is there because its core lies inside the joint core of one of the
+   transitive groups of sharing members (promotion extras aside) *)
+Definition hybrid_members_explained (protos : list proto) (w : option Z) (out : list ocand) : bool :=
+  forallb (fun c : ocand =>
+             negb (okind c =? K_HYBRID) ||
+             let ms := omembers protos c in
+             let sharing := filter (fun p => existsb (fun q => rel_H p q) ms) ms in
+             forallb (fun p => pmem p sharing || promoted_extra out p
+                               || existsb (fun q => match connect_locations
+                                                             (map pcore (ordered_set (component rel_H protos q))) w with
+                                                    | Ok core => contains core (pcore p)
+                                                    | Err _ => false
+                                                    end) sharing) ms) out.
+(* ... and conversely "plus protoclusters whose core lies inside the group's core span": a protocluster that shares a
+   defining gene with nobody and whose core lies inside the joint core (connect_locations with the wrap point) of a
+   transitive sharing group is a member of a CHEMICAL_HYBRID candidate that holds the whole group - of every such
+   group, a protocluster can be taken into several hybrids *)
+Definition hybrid_extension_complete (protos : list proto) (w : option Z) (out : list ocand) : bool :=
+  forallb (fun q =>
+             let k := component rel_H protos q in
+             negb (1 <? zlen k) ||
+             match connect_locations (map pcore (ordered_set k)) w with
+             | Err _ => true
+             | Ok core =>
+               forallb (fun p => existsb (fun r => rel_H p r) protos
+                                 || negb (contains core (pcore p))
+                                 || existsb (fun c : ocand => (okind c =? K_HYBRID) && zmem (pid p) (oids c)
+                                                              && zsubset (map pid k) (oids c)) out) protos
+             end) protos.
+(* interleaved, completeness at the level the code works on (linear AND circular records, overlap of locations on
+   the ring).  The units are taken from the property, not from the output: the transitive groups of protoclusters
+   sharing a defining gene (core = connect_locations of the members' cores with the wrap point; the protoclusters a
+   hybrid holds only because their core lies inside that joint core overlap it anyway, so they need not be counted
+   into the unit) and every other protocluster on its own; every transitive group of units with overlapping cores
+   lies inside one INTERLEAVED (or, after a promotion, CHEMICAL_HYBRID) candidate *)
+Definition unit_hulls (protos : list proto) (w : option Z) : list (list proto * loc) :=
+  let units := map (fun p => let k := component rel_H protos p in
+                             if 1 <? zlen k then ordered_set k else [p]) protos in
+  flat_map (fun u => match connect_locations (map pcore u) w with Ok l => [(u, l)] | Err _ => [] end) units.
+Definition rel_U (hulls : list (list proto * loc)) (p q : proto) : bool :=
+  existsb (fun ul : list proto * loc =>
+             pmem p (fst ul) &&
+             existsb (fun vl : list proto * loc => pmem q (fst vl) && overlap (snd ul) (snd vl)) hulls) hulls.
 Definition kind_clauses (protos : list proto) (w : option Z) (out : list ocand) : list bool :=
   [ groups_inside rel_H [K_HYBRID] protos out;
     groups_inside rel_I [K_HYBRID; K_INTERLEAVED] protos out;
     groups_inside rel_N [K_HYBRID; K_INTERLEAVED; K_NEIGHBOURING] protos out;
     neighbouring_exact protos out;
     interleaved_connected protos w out;
-    singles_present protos out ].
+    singles_present protos out;
+    hybrids_share protos out;
+    hybrid_members_explained protos w out;
+    hybrid_extension_complete protos w out;
+    groups_inside (rel_U (unit_hulls protos w)) [K_HYBRID; K_INTERLEAVED] protos out ].
 Definition spec_clauses_all (protos : list proto) (w : option Z) (out : list ocand) : list bool :=
   spec_clauses protos w out ++ kind_clauses protos w out.
 Definition eSpecAll (protos : list proto) (w : option Z) (out : list ocand) : list Z :=
@@ -742,7 +814,7 @@ Definition eSpecAll (protos : list proto) (w : option Z) (out : list ocand) : li
 
 (* class information for the two repaired findings: would the window / early break change the model's result (the
    model against the variant with the window), would the restriction to hit-less singles change it, and does the
-   model (= both repairs) meet every clause; then the 12 flags of the model's output and the output *)
+   model (= both repairs) meet every clause; then the flags of all clauses on the model's output and the output *)
 Definition to_ocand (c : cand) : ocand := (ckind c, map pid (cmem c), cloc c).
 Definition res_cands_eqb (a b : res (list cand)) : bool :=
   match a, b with
@@ -800,6 +872,8 @@ Definition dProtoD : dec proto := fun l =>
   | Some ((p, ds), r) => Some (mkProto (pid p) (ploc p) (pcore p) (pprod p) ds, r)
   | None => None
   end.
+(* protocluster with its class flag (1 = rule-based Protocluster, 0 = SideloadedProtocluster) *)
+Definition dProtoK : dec (proto * bool) := dPair dProto dBool.
 Definition dOCand : dec ocand := dPair (dPair dZ (dList dZ)) dLoc.
 Definition eCand (c : cand) : list Z :=
   ckind c :: eList (fun p => [pid p]) (cmem c) ++ eLoc (cloc c).
@@ -807,7 +881,7 @@ Definition eCand (c : cand) : list Z :=
 Definition run_C05 (fn : Z) (l : list Z) : list Z :=
   match fn with
   | 1 => (* Record: add protoclusters in the given order, create_candidate_clusters, get_candidate_clusters *)
-    match dPair (dPair (dPair dZ dBool) (dList dGene)) (dList dProto) l with
+    match dPair (dPair (dPair dZ dBool) (dList dGene)) (dList dProtoK) l with
     | Some ((n, circ, genes, protos), []) => eRes (eList eCand) (record_create n circ genes protos)
     | _ => bad_input
     end
@@ -833,9 +907,9 @@ Definition run_C05 (fn : Z) (l : list Z) : list Z :=
     | _ => bad_input
     end
   | 11 => (* finding class joint_core_wraps_assert for an input of fn 1 *)
-    match dPair (dPair (dPair dZ dBool) (dList dGene)) (dList dProto) l with
+    match dPair (dPair (dPair dZ dBool) (dList dGene)) (dList dProtoK) l with
     | Some ((n, circ, genes, protos), []) =>
-      eBool (class_joint_core_wraps (fold_left record_insert_proto (map (with_defs genes) protos) [])
+      eBool (class_joint_core_wraps (fold_left record_insert_proto (map (with_defs_k genes) protos) [])
                                     (if circ then Some n else None))
     | _ => bad_input
     end
@@ -845,9 +919,9 @@ Definition run_C05 (fn : Z) (l : list Z) : list Z :=
     | _ => bad_input
     end
   | 21 => (* class information of the repaired findings candidate_index_window / neighbouring_singles_not_linked, input of fn 1 *)
-    match dPair (dPair (dPair dZ dBool) (dList dGene)) (dList dProto) l with
+    match dPair (dPair (dPair dZ dBool) (dList dGene)) (dList dProtoK) l with
     | Some ((n, circ, genes, protos), []) =>
-      class_info (fold_left record_insert_proto (map (with_defs genes) protos) []) (if circ then Some n else None)
+      class_info (fold_left record_insert_proto (map (with_defs_k genes) protos) []) (if circ then Some n else None)
     | _ => bad_input
     end
   | 22 => (* ... input of fn 2 *)
@@ -856,11 +930,11 @@ Definition run_C05 (fn : Z) (l : list Z) : list Z :=
     | _ => bad_input
     end
   | 101 => (* spec on the implementation's output of fn 1 *)
-    match dPair (dPair (dPair dZ dBool) (dList dGene)) (dList dProto) l with
+    match dPair (dPair (dPair dZ dBool) (dList dGene)) (dList dProtoK) l with
     | Some ((n, circ, genes, protos), r) =>
       match r with
       | 0 :: r' => match dList dOCand r' with
-                   | Some (out, []) => eSpecAll (map (with_defs genes) protos) (if circ then Some n else None) out
+                   | Some (out, []) => eSpecAll (map (with_defs_k genes) protos) (if circ then Some n else None) out
                    | _ => bad_input
                    end
       | [1; _] => [2]   (* the implementation raised: no output to judge *)
